@@ -1,4 +1,4 @@
-(* Kernel universe for K17 = CodeBuilder.is_field_nullable (tools/kernels/k17_nullable.py).
+(* Kernel universe for K20 = CodeBuilder.is_field_nullable (tools/kernels/k20_nullable.py).
    A field type as far as that function inspects it: a stack of Annotated[...] / Final[...] wrappers
    around a core type, of which only three tests are made. *)
 From Coq Require Import Bool.
